@@ -223,6 +223,7 @@ class LoggingMonitor(pp.TransferMonitor):
                 outcome = 'success'
             except BaseException as e:  # noqa
                 outcome = 'raised'
+            ret = self.w.log.add('pp.result_returned', label=x.label, outcome=outcome)  # (first thing after the call came back)
             from .scenario import temp_leftovers
 
             done, jobs_left, _ = self._peek(transfer_id)
